@@ -166,6 +166,8 @@ def run(ctx):
     samples = []
     reqs = [json.dumps({"src": s, "curve": "BN254"}) for s in srcs]
     replies = vlib.run_harness_robust("taint", reqs)
+    rlines, rkeys = [], []
+    rlines, rkeys = [], []
     mlines, mkeys, infos = [], [], {}
     for k, (src, rep) in enumerate(zip(srcs, replies)):
         if not rep.startswith("{"):
@@ -221,7 +223,26 @@ def run(ctx):
         fuel = len(ids) + 3
         mlines.append("taint %d %s %s %s %s" % (fuel, lst(r["params"]), lst(r["exported"]), lst(under), " ".join(toks)))
         mkeys.append(k)
+        # the sides of every if statement from the edges of the CFG alone (Model/CfgReach.lean)
+        nb = len(r["blocks"])
+        edges = sorted((b["index"], t) for b in r["blocks"] for t in b["succ"])
+        brs = [(b["index"], st["extra"]) for b in r["blocks"] for st in b["stmts"] if st["kind"] == "branch"]
+        if brs and nb <= 24:
+            rlines.append("regions %d %s %s" % (nb, ",".join("%d>%d" % e for e in edges) or "-",
+                                                ",".join("%d:%d:%s" % (h, ex["true_index"], "-" if ex["false_index"] is None else ex["false_index"]) for h, ex in brs)))
+            rkeys.append((k, brs))
+        elif brs:
+            stats["definitions too large for the region model"] += 1
         infos[k] = (r, dict(ids))
+    rout = vlib.run_model(rlines) if rlines else []
+    for (k, brs), ml in zip(rkeys, rout):
+        want = " ".join("%d:T=%s:F=%s" % (h, ",".join(map(str, ex["true_blocks"])) or "-", ",".join(map(str, ex["false_blocks"])) or "-") for h, ex in brs)
+        stats["branch regions compared"] += len(brs)
+        if ml.strip() != want:
+            l2 += 1
+            ctx.violation("branch-region-correspondence", {"stage": "L2 get_true_branch / get_false_branch vs CfgReach.trueBranch / falseBranch", "source": srcs[k],
+                                                           "model": ml[:400], "implementation": want[:400],
+                                                           "broken": "correspondence CfgReach.branch <-> Cfg::get_true_branch / get_false_branch"})
     mout = vlib.run_model(mlines)
     for k, ml in zip(mkeys, mout):
         src = srcs[k]
